@@ -112,32 +112,32 @@ func (ga GenAccount) addrBytes() []byte {
 
 // Config of a generated chain.
 type Config struct {
-	Seed         uint64
-	NumVals      int     // default 1
-	ValPowers    []int64 // voting power units (each = 1e18 bonded), default 1 each
+	Seed          uint64
+	NumVals       int     // default 1
+	ValPowers     []int64 // voting power units (each = 1e18 bonded), default 1 each
 	ValCommission []string
-	MaxGas       int64 // consensus Block.MaxGas; 0 value means "use -1"; use MaxGasSet to pass 0
-	MaxGasSet    bool
-	BaseFee      *big.Int // default 1e9
-	MinGasPrice  string   // LegacyDec, default "0"
-	Inflation    bool     // default false: mint inflation forced to 0
-	Erc20Native  bool
-	StakingCPC   bool
-	CpcWhitelist []string
-	GenesisTime  time.Time // default 2023-11-14T22:13:20Z
-	BlockStep    time.Duration
-	Accounts     []GenAccount
-	SlashWindow  int64
+	MaxGas        int64 // consensus Block.MaxGas; 0 value means "use -1"; use MaxGasSet to pass 0
+	MaxGasSet     bool
+	BaseFee       *big.Int // default 1e9
+	MinGasPrice   string   // LegacyDec, default "0"
+	Inflation     bool     // default false: mint inflation forced to 0
+	Erc20Native   bool
+	StakingCPC    bool
+	CpcWhitelist  []string
+	GenesisTime   time.Time // default 2023-11-14T22:13:20Z
+	BlockStep     time.Duration
+	Accounts      []GenAccount
+	SlashWindow   int64
 	UnbondingTime time.Duration
 	MutateGenesis func(cdc params.EncodingConfig, gs chainapp.GenesisState)
-	DB           dbm.DB
-	AppOpts      map[string]any
-	BaseAppOpts  []func(*baseapp.BaseApp)
-	Home         string
-	NoObserver   bool
-	NoFirstBlock bool
-	KeepBlocks   bool // keep every BlockResult in Chain.Blocks (from block 1 on)
-	Logger       log.Logger
+	DB            dbm.DB
+	AppOpts       map[string]any
+	BaseAppOpts   []func(*baseapp.BaseApp)
+	Home          string
+	NoObserver    bool
+	NoFirstBlock  bool
+	KeepBlocks    bool // keep every BlockResult in Chain.Blocks (from block 1 on)
+	Logger        log.Logger
 }
 
 // Mode of a transaction execution as seen by the observer.
@@ -175,12 +175,15 @@ type Validator struct {
 
 // BlockOpt customises one block.
 type BlockOpt struct {
-	TimeStep    time.Duration
-	Proposer    int // index into current validator list
-	Absent      map[string]bool // cons address (hex) -> absent vote
-	Misbehavior []abci.Misbehavior
-	NoSentinel  bool
-	NoCommit    bool
+	// BeforeCommit (RunObserved only) runs after FinalizeBlock and the final snapshot, before Commit: the window in
+	// which a node's mempool connection still answers from the check state of the previous block
+	BeforeCommit func()
+	TimeStep     time.Duration
+	Proposer     int             // index into current validator list
+	Absent       map[string]bool // cons address (hex) -> absent vote
+	Misbehavior  []abci.Misbehavior
+	NoSentinel   bool
+	NoCommit     bool
 }
 
 // BlockResult is the consensus-visible outcome of a block.
@@ -190,7 +193,7 @@ type BlockResult struct {
 	Req     *abci.RequestFinalizeBlock
 	Res     *abci.ResponseFinalizeBlock
 	Err     error
-	NTx     int // number of real (non-sentinel) txs
+	NTx     int      // number of real (non-sentinel) txs
 	BaseFee *big.Int // base fee in force during this block
 }
 
@@ -205,25 +208,25 @@ func (b *BlockResult) TxResults() []*abci.ExecTxResult {
 // Chain drives one real application instance through the ABCI interface.
 type Chain struct {
 	InitBaseFee *big.Int // base fee in force right after InitChain, before the first block (nil if unreadable)
-	Cfg      Config
-	App      *chainapp.Evermint
-	Enc      params.EncodingConfig
-	DB       dbm.DB
-	Vals     []*Validator // genesis validators
-	Height   int64
-	Time     time.Time
-	LastHash []byte
-	Blocks   []*BlockResult
-	KeepBlocks bool
-	Genesis  *abci.RequestInitChain
-	observers []func(*TxObs)
-	curIndex  int32
-	inBlock   atomic.Bool
-	sentinel  []byte
-	valsetAt  map[int64][]abci.ValidatorUpdate // not used for lookup; kept for evidence
-	curVals   map[string]*abci.Validator        // cons addr hex -> validator (set that signs next LastCommit)
-	pending   [][]abci.ValidatorUpdate
-	home      string
+	Cfg         Config
+	App         *chainapp.Evermint
+	Enc         params.EncodingConfig
+	DB          dbm.DB
+	Vals        []*Validator // genesis validators
+	Height      int64
+	Time        time.Time
+	LastHash    []byte
+	Blocks      []*BlockResult
+	KeepBlocks  bool
+	Genesis     *abci.RequestInitChain
+	observers   []func(*TxObs)
+	curIndex    int32
+	inBlock     atomic.Bool
+	sentinel    []byte
+	valsetAt    map[int64][]abci.ValidatorUpdate // not used for lookup; kept for evidence
+	curVals     map[string]*abci.Validator       // cons addr hex -> validator (set that signs next LastCommit)
+	pending     [][]abci.ValidatorUpdate
+	home        string
 }
 
 var homeCounter atomic.Int64
@@ -510,9 +513,9 @@ func (c *Chain) buildGenesis() *abci.RequestInitChain {
 		validators = append(validators, stakingtypes.Validator{
 			OperatorAddress: v.Oper.String(), ConsensusPubkey: pkAny, Status: stakingtypes.Bonded,
 			Tokens: tokens, DelegatorShares: sdkmath.LegacyNewDecFromInt(tokens),
-			Description: stakingtypes.Description{Moniker: fmt.Sprintf("val%d", i)},
-			UnbondingTime: time.Unix(0, 0).UTC(),
-			Commission:    stakingtypes.NewCommission(comm, sdkmath.LegacyOneDec(), sdkmath.LegacyOneDec()),
+			Description:       stakingtypes.Description{Moniker: fmt.Sprintf("val%d", i)},
+			UnbondingTime:     time.Unix(0, 0).UTC(),
+			Commission:        stakingtypes.NewCommission(comm, sdkmath.LegacyOneDec(), sdkmath.LegacyOneDec()),
 			MinSelfDelegation: sdkmath.OneInt(),
 		})
 		delegations = append(delegations, stakingtypes.NewDelegation(oper.Bech32(), v.Oper.String(), sdkmath.LegacyNewDecFromInt(tokens)))
